@@ -101,3 +101,76 @@ Definition obs_agrees (o : lobs) (m : outcome bstate * nat) : bool :=
 
 Definition is_balance_error (x : xerr) : bool :=
   match x with XUnbalanced _ | XUndeducible _ _ => true | _ => false end.
+
+(* ---- the rendered error (Display of ReportError::BookKeep), read back by harness/src/diag.rs ----
+   GSeen: the kind of error the title line states (codes below); the entry whose first line
+   is the first line of the source excerpt and the entry whose last line is its last line;
+   the entry and the posting (98 = above the first posting: header and its comment lines)
+   the `--> file:line:col` location lies in; and one element per labelled marker:
+   (label, entry, posting at whose line the marker starts, 1 iff the marker runs from the
+   first to the last line of that entry).  99 = no such entry / posting.
+   Labels: 0 "error occured" 1 "first posting without constraints" 2 "cannot deduce this
+   posting" 3 "absolute zero posting should not have exchange" 4 "exchange with zero amount"
+   5 "posting amount" 6 "exchange cannot have the same commodity with posting" 7 "not match
+   the computed balance" 8 "computed balance: ..".
+   GNone: nothing to read (no book-keeping error).  GWide: an excerpt line is wider than the
+   renderer's terminal and cut - not read.  GPanic: rendering panicked.  GUnreadable: the
+   text is not an excerpt of the ledger's text. *)
+Inductive gdiag :=
+| GNone | GPanic | GUnreadable | GWide
+| GSeen (title : N) (first_entry last_entry loc_entry loc_posting : nat)
+        (marks : list (N * nat * nat * N)).
+
+Definition title_code (e : bk_err) : N :=
+  match e with
+  | EvalFailure _ => 1 | BalanceFailure => 2 | UndeduciblePostingAmount _ _ => 3
+  | UnbalancedPostings _ => 4 | BalanceAssertionFailure _ _ _ => 5
+  | ZeroAmountWithExchange => 6 | ZeroExchangeRate => 7 | ExchangeWithAmountCommodity => 8
+  end%N.
+
+Definition has_mark (ms : list (N * nat * nat * N)) (l : N) (k : nat) (p : option nat) (whole : bool) : bool :=
+  existsb (fun m => match m with
+                    | (l', k', p', w) =>
+                        (l' =? l)%N && Nat.eqb k' k
+                        && match p with Some p => Nat.eqb p' p | None => true end
+                        && (negb whole || (w =? 1)%N)
+                    end) ms.
+
+(* posting carrying label l in entry k (99 when there is none) *)
+Definition mark_posting (ms : list (N * nat * nat * N)) (l : N) (k : nat) : nat :=
+  match find (fun m => match m with (l', k', _, _) => (l' =? l)%N && Nat.eqb k' k end) ms with
+  | Some (_, _, p, _) => p
+  | None => 99
+  end.
+
+(* the rendered error names entry k as the place of error e: title, location, excerpt and
+   markers.  Errors without a span of their own underline the entry from its first to its
+   last line; the others mark the posting(s) the error is about. *)
+Definition gdiag_names (d : gdiag) (k : nat) (e : bk_err) : bool :=
+  match d with
+  | GNone | GWide => true
+  | GPanic | GUnreadable => false
+  | GSeen t fe le lk lp ms =>
+      (t =? title_code e)%N && Nat.eqb fe k && Nat.eqb le k && Nat.eqb lk k
+      && match e with
+         | EvalFailure _ | BalanceFailure | UnbalancedPostings _ =>
+             has_mark ms 0 k None true && Nat.eqb lp 98
+         | UndeduciblePostingAmount i j =>
+             has_mark ms 1 k (Some i) false && has_mark ms 2 k (Some j) false && Nat.eqb lp i
+         | BalanceAssertionFailure p _ _ =>
+             has_mark ms 7 k (Some p) false && has_mark ms 8 k (Some p) false && Nat.eqb lp p
+         | ZeroAmountWithExchange =>
+             has_mark ms 3 k None false && Nat.eqb lp (mark_posting ms 3 k) && negb (Nat.eqb lp 98)
+         | ZeroExchangeRate =>
+             has_mark ms 4 k None false && Nat.eqb lp (mark_posting ms 4 k) && negb (Nat.eqb lp 98)
+         | ExchangeWithAmountCommodity =>
+             (* the "posting amount" label is sometimes overwritten by the second marker
+                (annotate-snippets draws the `^` run over a label that reaches it): where it
+                can be read it must stand at the same posting *)
+             has_mark ms 6 k None false
+             && (negb (has_mark ms 5 k None false) || Nat.eqb (mark_posting ms 5 k) (mark_posting ms 6 k))
+             && Nat.eqb lp (mark_posting ms 6 k) && negb (Nat.eqb lp 98)
+         end
+  end.
+
+Definition gdiag_unreadable (d : gdiag) : bool := match d with GUnreadable => true | _ => false end.
